@@ -31,6 +31,11 @@ let init () =
     match args with
     | [a; b] -> if spawn_ok_n (codes a) (codes b) then "ok" else "UNKNOWN-SPAWN"
     | _ -> "bad-request");
+  (* package attachment: one `go conn.run()` per connection, no channel, and one mention of package sync (the
+     sync.Once field of BaseJT808DataHandler, a "first header" latch used by the connection's own goroutine):
+     nothing is shared between goroutines, so there is nothing to model; any other shape breaks the tie *)
+  register "attach-shape" (fun args ->
+    if args = ["go=1"; "chan=0"; "sync=1"] then "one-goroutine-per-connection" else "SHAPE-CHANGED: a model of package attachment is due");
   register "racescen" (fun _ -> "n/a: race-detector scenario; the model's statement is C18_race_free");
   register "accs" (fun _ ->
     "ok " ^ Stdlib.String.concat " " (Stdlib.List.sort_uniq compare
